@@ -837,8 +837,35 @@ def spin_probe(chk):
                       "tcp-C02 (zero-capacity probe): crash or sanitizer report rc=%s\n%s" % (rc, se[-1500:]))
 
 
+PTCP_WHY = ("reliable mode (pseudo-TCP over UDP): the received stream is corrupted after data segments overtook the peer's lost connect segment "
+            "(pseudotcp.c saves them at offsets that ignore the sequence space of the control segment)")
+
+
+def ptcp_early_data(evs):
+    """signature of the known pseudo-TCP defect in a simulator trace: on some flow a data segment (more than the 31 bytes of a connect
+    segment) was delivered before any connect segment of that flow had been, at least one of which was dropped"""
+    seen_ctl, dropped_ctl = set(), set()
+    for e in evs:
+        if e.kind != "pkt" or len(e.f) < 5 or e.f[3] != "data" or not e.f[4].startswith("len="):
+            continue
+        flow = (e.f[0], e.f[1])
+        n = int(e.f[4][4:])
+        if n == 31:
+            (seen_ctl if e.f[2] == "ok" else dropped_ctl).add(flow)
+        elif n > 31 and e.f[2] == "ok" and flow not in seen_ctl and flow in dropped_ctl:
+            return True
+    return False
+
+
+# a scenario found by the thorough tier (30 percent loss; the peer's connect segments are lost, its data gets through): run on every tier
+PTCP_CORPUS = [('dataK1 seed,907270985 agent,0,0,0,2,10.0.0.1 agent,1,0,1,3,10.0.1.1 stream,0,2 stream,1,2 net,0.3,0,1,5,3 gather,0,1 gather,1,1 cands,0,1,1,2 run,60 cands,1,0,1,1 run,20 cands,1,0,1,2 creds,1,0,1 creds,0,1,1 run,20 cands,0,1,1,1 run,20 run,8000 sendstream,1,1,2,63488,79 run,1 sendstream,0,1,1,63489,62 run,300 sendstream,0,1,1,4096,153 run,1 sendstream,0,1,2,102432,91 run,1 sendstream,0,1,1,1200,0 run,300 sendstream,0,1,2,63487,165 sendstream,1,1,2,100,181 run,300 run,60000 streamhash,0,1,1 streamhash,0,1,2 streamhash,1,1,1 streamhash,1,1,2 state,0,1,1 selected,0,1,1 state,0,1,2 selected,0,1,2 state,1,1,1 selected,1,1,1 state,1,1,2 selected,1,1,2', {"kind": "data-reliable", "ncomp": 2, "drop": 0.3})]
+
+
 def sim_oracle(line, evs, meta):
-    return sc.oracle_data_full(evs, meta)
+    r = sc.oracle_data_full(evs, meta)
+    if r and r.startswith("reliable mode: the ") and "are not the first" in r and ptcp_early_data(evs):
+        return PTCP_WHY
+    return r
 
 
 def run(chk):
@@ -847,7 +874,7 @@ def run(chk):
     align_probe(chk)
     spin_probe(chk)
     n = 200 if chk.tier == "quick" else 12000
-    cases = [sc.gen_data(chk.rng, i) for i in range(n)]
+    cases = [sc.gen_data(chk.rng, i) for i in range(n)] + PTCP_CORPUS
     sc.run_sim(chk, cases, sim_oracle, "sim-C02", compare=False)
     return chk.finish(**FINISH)
 
